@@ -263,6 +263,18 @@ def to_cellml(sysd, rng, nla=False, perm=None, rename=None, implicit=0.0):
             rng.shuffle(neqs)
             sysd['nla_block'] = (nvars, neqs)
         sysd['eqorder'] = {c: [q.idx for q in qs if q.home == c and q.rhs is not None] for c in range(sysd['ncomp'])}
+        # how the members of a quantity are connected: a star around the home component, or a chain that starts there; on a
+        # chain the initial value may be declared at the far end (two or more connections away from the equation)
+        sysd['chain'] = {}
+        sysd['init_at'] = {}
+        for q in qs:
+            others = [c for c in q.members if c != q.home]
+            if len(others) >= 2 and rng.random() < 0.7:
+                rng.shuffle(others)
+                sysd['chain'][q.idx] = [q.home] + others
+                far = others[-1]
+                if q.init is not None and q.init_from is None and scale(q.members[far][1]) == scale(q.members[q.home][1]) and rng.random() < 0.85:
+                    sysd['init_at'][q.idx] = far
         for c in sysd['eqorder']:
             rng.shuffle(sysd['eqorder'][c])
     rn = rename or {}
@@ -285,7 +297,7 @@ def to_cellml(sysd, rng, nla=False, perm=None, rename=None, implicit=0.0):
             if c in q.members:
                 name, units = q.members[c]
                 iv = ''
-                if q.home == c and q.init is not None:
+                if sysd.get('init_at', {}).get(q.idx, q.home) == c and q.init is not None:
                     iv = ' initial_value="%s"' % q.init
                 if q.home == c and q.init_from is not None:
                     iv = ' initial_value="%s"' % vn(c, qs[q.init_from].members[c][0])
@@ -316,10 +328,11 @@ def to_cellml(sysd, rng, nla=False, perm=None, rename=None, implicit=0.0):
     out += blocks
     pairs = {}
     for q in qs:
-        for c in q.members:
-            if c != q.home:
-                a, b = min(c, q.home), max(c, q.home)
-                pairs.setdefault((a, b), []).append((vn(a, q.members[a][0]), vn(b, q.members[b][0])))
+        ch = sysd.get('chain', {}).get(q.idx)
+        links = list(zip(ch, ch[1:])) if ch else [(q.home, c) for c in q.members if c != q.home]
+        for x_, y_ in links:
+            a, b = min(x_, y_), max(x_, y_)
+            pairs.setdefault((a, b), []).append((vn(a, q.members[a][0]), vn(b, q.members[b][0])))
     plist = sorted(pairs.items())
     if perm:
         perm.shuffle(plist)
